@@ -90,6 +90,17 @@ def check_query(index, paths, reverse, removed, query, end_cells):
     return None
 
 
+# An unrelated index built before the index under test in every case and looked at again
+# afterwards: indexes living in the same process must not influence each other.
+DECOY_PATHS = [[[10, 10], [14, 12]], [[11, 13], [10, 10]], [[14, 14], [12, 11]]]
+DECOY_QUERIES = [(10, 10), (14, 14), (0, 0), (12, 12.5)]
+
+
+def _decoy_view(decoy):
+    return ([list(c) for c in decoy.grid], list(decoy.lookup),
+            [decoy.nearest(list(q)) for q in DECOY_QUERIES])
+
+
 def explore_index(paths, bins, reverse, queries, part):
     """All removal orders of one index; every state queried.  Returns nothing (fills part)."""
     spatial_grid = _lib()
@@ -99,6 +110,8 @@ def explore_index(paths, bins, reverse, queries, part):
     orders = list(itertools.permutations(range(n_paths)))
     for order in orders:
         try:
+            decoy = spatial_grid.Index([[list(a), list(b)] for a, b in DECOY_PATHS], 3, True)
+            decoy_before = _decoy_view(decoy)
             index = spatial_grid.Index([[list(p[0]), list(p[1])] for p in paths], bins, reverse)
         except Exception as exc:            # pylint: disable=broad-except
             part.violation(f"build:{paths}:{bins}:{reverse}", f"{desc} raised {exc!r}",
@@ -138,6 +151,15 @@ def explore_index(paths, bins, reverse, queries, part):
                     break
                 removed.add(victim)
                 part.count("transitions")
+        try:
+            decoy_after = _decoy_view(decoy)
+        except Exception as exc:            # pylint: disable=broad-except
+            decoy_after = repr(exc)
+        if decoy_after != decoy_before:
+            part.violation(f"isolation:{paths}:{bins}:{reverse}",
+                           f"{desc} with removals {list(order)}: an unrelated index built earlier "
+                           f"changed from {decoy_before} to {decoy_after}",
+                           _case(paths, bins, reverse, list(order), None))
     part.count("indexes")
     if n_paths > 1 or reverse:
         part.count("nontrivial")
@@ -237,6 +259,7 @@ def replay(case):
     if case["query"] is None:
         explore_index(paths, case["bins"], case["reverse"], [], part)
         return [v["msg"] for v in part.violations]
+    spatial_grid.Index([[list(a), list(b)] for a, b in DECOY_PATHS], 3, True)   # as in exploration
     index = spatial_grid.Index([[list(p[0]), list(p[1])] for p in paths], case["bins"],
                                case["reverse"])
     end_cells = [(i, pt, cell_of(index, pt)) for i, pt in ends_of(paths, case["reverse"])]
